@@ -301,7 +301,84 @@ def r5_raii(ctx):
     ctx.check(f is not None and bool(f.calls_to(NR + 'ctx::buf_drop')), 'statics-guard-drop', 'the simulation statics guard clears the global buffers on drop', f.where() if f else None)
 
 
+CONSUMER = {  # entry point -> how the harness outcome must be consumed
+    EV + 'handle_message': 'catch', EV + 'at_sim_start': 'catch', EV + 'at_sim_end': 'catch', EV + 'async_wakeup': 'catch',
+    EV + 'reset': 'pass',   # a panic while resetting is always reported (the module is already inactive)
+}
+
+
+def r6_consumers_and_teardown(ctx):
+    P = ctx.P
+    ctx.set_rule('C13.R2')
+    for k, want in CONSUMER.items():
+        f = P.fns.get(k)
+        if f is None:
+            ctx.violation('anchor:' + k, 'unresolved-anchor ' + k); continue
+        for s in f.calls_to(H + '::exec'):
+            cons = [c for c in f.calls() if c.name in (H + '::catch', H + '::pass') and
+                    any(x[0] == 'call' and x[1] == H + '::exec' and x[3] == s.b for x in walk(f.expr_operand(c.args[0], c.b, 'T')))]
+            got = cons[0].name.split('::')[-1] if cons else None
+            ctx.check(got == want, 'consumer:%s' % k.split('::')[-1],
+                      "%s consumes the harness outcome with `%s` (catch = deactivate the module and honour its stereotype; only reset reports unconditionally)" % (short(k), want),
+                      s.where(), got)
+    teardown_reaches_all(ctx, 'C13.R3')
+    # the event buffer is flushed unconditionally by buf_process
+    ctx.set_rule('C13.R4')
+    g = P.fns.get(NR + 'ctx::buf_process')
+    if g is not None:
+        dr = [s for s in g.calls() if s.name == 'std::vec::Vec::drain']
+        ok = bool(dr) and g.postdominates(dr[0].b, 0)
+        ctx.check(ok, 'flush-unconditional', 'buf_process drains the global event buffer on every path — also for a module that has just been deactivated by a panic', g.where())
+
+
+def teardown_reaches_all(ctx, rule):
+    """tear-down reaches every module: after the application's own at_sim_end the per-module loop is on every feasible path"""
+    P = ctx.P
+    ctx.set_rule(rule)
+    k = '<des::net::runtime::SimLifecycle as des::runtime::event::types::EventLifecycle>::at_sim_end'
+    f = P.fns.get(k)
+    if f is None:
+        ctx.violation('anchor:' + k, 'unresolved-anchor ' + k); return
+    ends = f.calls_to(EV + 'at_sim_end')
+    if not ctx.floor('per-module at_sim_end call', len(ends), 1):
+        return
+    hdrs = f.loops_containing(ends[0].b)
+    n = 0
+    for path, outcome, decs in fn_paths(ctx, f):
+        if outcome != 'return':
+            continue
+        atoms = [a for _, a in path_atoms(f, path, decs)]
+        # the `?` on the application's at_sim_end is a legitimate early exit
+        app_err = any(a[0] == 'is' and a[2] == 'Break' for a in atoms)
+        if app_err or any(h in path for h in hdrs):
+            continue
+        # an exit before the loop: feasible?  `x.is_empty() == false` right after x was swapped with a fresh RuntimeError::empty() is dead code
+        dead = False
+        for a in atoms:
+            if a[0] == 'bool' and a[2] is False and a[1][0] == 'call' and a[1][1].endswith('::is_empty'):
+                subj = a[1][2][0]
+                while subj[0] == 'call' and len(subj[2]) == 1 and subj[1].split('::')[-1] in ('deref', 'as_ref', 'borrow', 'as_slice', 'deref_mut'):
+                    subj = subj[2][0]
+                for s in f.calls():
+                    if s.name == 'std::mem::swap' and s.b in path:
+                        t0 = canon(peel(f.expr_operand(s.args[0], s.b, 'T')))
+                        t1 = canon(peel(f.expr_operand(s.args[1], s.b, 'T')))
+                        fresh = [t for t in (t0, t1) if t[0] == 'call' and t[1].endswith('RuntimeError::empty')]
+                        other = [t for t in (t0, t1) if t not in fresh]
+                        if fresh and other and other[0] == subj:
+                            dead = True
+        if dead:
+            continue
+        n += 1
+        ctx.violation('teardown-skipped',
+                      "SimLifecycle::at_sim_end can return without visiting the modules: after a run-phase panic no module would get at_sim_end and later panics/join errors would not be listed",
+                      f.where_path(path), [show_atom(a) for a in atoms][:5])
+    if n == 0:
+        ctx.ok('every feasible path of the tear-down visits all modules (the only early exits are the application error and a provably dead check)', f.where())
+
+
 def run(ctx):
+    r6_consumers_and_teardown(ctx)
     r1_harness_coverage(ctx)
     r2_harness(ctx)
     r3_error_discipline(ctx)
